@@ -40,6 +40,13 @@ def units(ctx):
         for mu in reach.truths(4, 2, True):
             us.append(("reach", PROPERTY, "VOGP", ("theta", 120), 2, 4, mu, 8, 1))
             us.append(("reach", PROPERTY, "EpsilonPAL", None, 2, 4, mu, 8, 1))
+    from vmc import cones as _cones
+    for alg in ("VOGP", "EpsilonPAL"):
+        for spec in ([None] if alg == "EpsilonPAL" else [c for c in cs if _cones.W_of(c).shape == (2, 2)]):
+            for mu in reach.truths(2, 2, True):
+                us.append(("mreach", PROPERTY, alg, spec, 2, 2, mu, 8, 3 if ctx.thorough else 2))
+            for mu in reach.truths(3, 2, True)[: (10 if ctx.thorough else 5)]:
+                us.append(("mreach", PROPERTY, alg, spec, 2, 3, mu, 8, 2 if ctx.thorough else 1))
     for alg in ("VOGP", "EpsilonPAL"):
         specs = [None] if alg == "EpsilonPAL" else [("comp", 2), ("theta", 60), ("theta", 120)]
         for spec in specs:
@@ -50,6 +57,11 @@ def units(ctx):
 
 
 def run_unit(unit):
+    if unit[0] == "mreach":
+        from checks import modelreach
+        res = core.new_result()
+        modelreach.run_mreach(unit, res)
+        return res
     if unit[0] == "realreach":
         res = core.new_result()
         reach.run_real_reach(unit, res)
@@ -58,6 +70,9 @@ def run_unit(unit):
 
 
 def replay_case(case):
+    if case.get("mode") == "mreach":
+        from checks import modelreach
+        return modelreach.replay_case(case)
     if case.get("mode") == "realreach":
         res = core.new_result()
         u = list(case["unit"])
